@@ -12,7 +12,7 @@ CLAIMED = {
          'attribute numbers below numAttrs, ordered pass numbers and pass slices inside the subtable.  Tie B (two-sided, the loader\'s own error codes included, for the Silf headers; per-glyph attribute values for Glat): compiled and hand-laid-out tables, valid and damaged field by field, through the real readers.  Also: synthetic sfnt files (table counts 0..41, offsets and lengths at / past the end, '
          '32-bit extremes, truncation anywhere) through the real FileFace and the extracted container model, table by table; the cmap / lz4 / VM models are tied by the C13 / C14 / C07 checks.  Oracle: the '
          'historical single-byte crashers of tests/fuzz-tests plus byte-mutated, directory-mutated and truncated copies of the shipped fonts x option bits 0..7 x {file, callbacks}: make, every gr_face_* / '
-         'gr_fref_* / gr_featureval_* query, destroy, under ASan+UBSan, LeakSanitizer after every case, watchdog.',
+         'gr_fref_* / gr_featureval_* query, destroy, under ASan+UBSan, LeakSanitizer after every case, watchdog.  On every pass whose header arithmetic is accepted, the reads that build the state machine\'s tables lie inside the pass (C01_pass_tables_read_in_bounds: the two pass models meet).',
     note='partial: the rest of the pass parser (code loading beyond the bytecode model), the name parser and the octabox reader are not modelled; their memory safety, termination and leak freedom are decided by sanitizers on explored inputs.',
     technique='Coq proof (slice containment for the container; bounds safety of cmap, lz4, bytecode loader on arbitrary bytes) over hand models + differential correspondence on FileFace + sanitizer oracle over mutated fonts',
     design='6/C01'),
@@ -151,14 +151,18 @@ CLAIMED = {
  'C14': dict(
     text='Theorem over a faithful array model of lz4::decompress (suffix cursor for the input, checked block reads/writes on an output array, '
          'overrun_copy storing whole machine words): for ARBITRARY input bytes, output size and initial output content the decoder never reads '
-         'outside the input nor reads/writes outside the announced output size, and terminates.  Constants, align() and sizeof(unsigned long) '
+         'outside the input nor reads/writes outside the announced output size, and terminates; whatever it accepts is the byte-wise reference '
+         'decoding of the block (soundness), and every reference encoding within the block format\'s end-of-block margins is accepted and decoded to '
+         'its data (completeness); Face::Table::decompress (announced size, scheme, version word) is modelled on top of it: writes inside the '
+         'announced size, sizes below 4 refused before any write, accepted tables are the reference decoding.  Constants, align() and sizeof(unsigned long) '
          'are regenerated from the header (tie A); the extracted model is run against the ASan build on valid encodings (greedy/random/overlapping/'
          '255-chains), output/input size +-1, guard-targeted mutants, boundary blocks and garbage tails, with an independent strict reference '
          'decoder as oracle for exactness and completeness (tie B).',
     note='Trusted: Coq kernel; cxx2v/gen_src; extraction + driver; harness impl_lz4.cpp; Python encoder/reference decoder used as oracle; ASan. '
          'Two defects found by this check were repaired by fix: commits (match-length wrap, lenient tail). Exactness w.r.t. the reference is '
-         'currently established differentially (oracle), the memory-safety clause by proof; API-level transparency is covered through C10.',
-    technique='Coq proof (invariant over decoder loop) over hand model; translator-regenerated constants/align (tie A); differential correspondence + reference-decoder oracle (tie B)',
+         'proved for accepted blocks (C14_decoder_sound) and for encodings within the margins (C14_decoder_complete); blocks outside the margins are the recorded finding; '
+         'Face::Table is tied two-sidedly over generated tables; font-level transparency by compressed twins of the Awami test font.',
+    technique='Coq proof (safety invariant, soundness and completeness of the decoder loop against a reference decoder; table-level caller) over hand models; translator-regenerated constants/align (tie A); differential correspondence + reference-decoder oracle (tie B)',
     design='6/C14'),
  'C16': dict(
     text='Theorems: (1) soundness of the ledger acceptor - a trace of get_table / release_table / milestone events that it accepts satisfies the discipline in declarative form: every buffer handed out '
@@ -181,7 +185,7 @@ CLAIMED = {
          'translator (tie A) and the theorem is proved over them: with a well-formed limit and the glyph inside it, every position of every axis range maps to offset + shift inside the limit rectangle, '
          'and the four ranges are well-formed zones.  Tie B: the same operation sequences on the real Zones class (component harness) and the extracted model, full list (bounds, weights, open flag) compared '
          'after every operation; the real ShiftCollider driven (initSlot, everything but a sliver at one end of one axis excluded, resolve) and its answer checked against the limit rectangle.  Oracle on the '
-         'implementation: sortedness, bounds, excluded ranges, closest answers; collision fonts end to end under ASan/UBSan.',
+         'implementation: sortedness, bounds, excluded ranges, closest answers; collision fonts end to end under ASan/UBSan.  The clamp of the kerning path (KernCollider::resolve, regenerated with the two stores of KernCollider::initSlot) keeps offset + kern inside the limit rectangle\'s x range for any needed kern (C17_kern_limit_respected); the real KernCollider is driven as Pass::resolveKern drives it.',
     note='partial: the interval-set and limit clauses are proved (over integer coordinates; the arithmetic is affine/min so the reals behave alike, float rounding is outside).  The resolved-verdict clause '
          '(no octabox overlap) is decided by a geometric oracle on the real ShiftCollider (initSlot / mergeSlot / resolve over random glyph pairs and arrangements), not proved; KernCollider and the '
          'sequence-order regions are exercised end to end on the Awami fonts under sanitizers only.  Two known findings (zero-width zones; reach test ignoring the target extent).',
@@ -193,7 +197,7 @@ CLAIMED = {
          'feature reads back v and every other feature is unchanged for any vector contents (hence any operation history); failure produces nothing; '
          'language 0 / unknown -> defaults, known -> its Sill vector, space- and zero-padded tags alike.  Tie A: storage limit, chunk width and the '
          'width of m_index regenerated from the source.  Tie B: extracted model vs the real loaders (Face::readFeatures on a bare Face) and the gr_* API '
-         'on synthesised Feat/Sill/name tables with read-back of ALL features after every step, plus malformed tables; reference oracle in Python.',
+         'on synthesised Feat/Sill/name tables with read-back of ALL features after every step, plus malformed tables; reference oracle in Python.  The map laws are also proved with the identity of the feature map a Features object belongs to (several faces, unbound maps from gr_featureval_clone(NULL)): a write succeeds iff in range and the map is unbound or the writer\'s, only a successful write binds, a refusal changes nothing; the harness runs a second face over the same tables.',
     note='Trusted: Coq kernel; gen_src; extraction + driver; harness impl_feat.cpp; Python generators/reference; ASan.  Labels (name table) are checked '
          'by the oracle only.  One face only (map compatibility test not modelled); duplicate feature ids not generated (qsort order unspecified). '
          'Two defects repaired by fix: commits (byte index aliasing; first name record).',
@@ -227,7 +231,7 @@ CLAIMED = {
          '32-bit tags: value = big-endian of the first min(4,len) bytes, no read beyond the NUL (checked reads on the exact region), '
          'exactly four stores, inverse both ways, padding equivalence.  The model is tied to the source on every run: zeropad and '
          'the script strip are re-translated from the C++ (clang AST -> Gallina) and proved equal to the model, and the extracted '
-         'model is run against the ASan/UBSan build of the working tree on exact-size / guard-page buffers.',
+         'model is run against the ASan/UBSan build of the working tree on exact-size / guard-page buffers.  The keys gr_face_find_fref and gr_face_featureval_for_lang look up are regenerated from their bodies (zero-pad, one lookup): the space- and the zero-padded spelling of a tag select the same feature / language in every Feat / Sill table (C20_feature_padding, C20_language_padding); gr_face_find_fref is asked every feature id of five fonts and of a crafted Feat table in all spellings.',
     note='Trusted: Coq kernel; tools/cxx2v.py+gen_src.py translator; extraction (ExtrOcamlBasic only) + OCaml driver; harness '
          'impl_tag.cpp; g++/ASan.  Print Assumptions: closed under the global context for every theorem.  The script tag is not '
          'observable through the API (Face::chooseSilf ignores it): tie A only.',
